@@ -297,6 +297,7 @@ Definition audit_table : list (string * string * nat * string * list string) := 
   ("x/evidence/keeper.Keeper.HandleEquivocationEvidence", "sub", 1%nat, "time.Sub: no panic", ["c34d6b2e85a9d21f"]);
   ("x/evidence/keeper.Keeper.HandleEquivocationEvidence", "panic", 1%nat, "unreachable: signing info is created when the validator joins (AfterValidatorJoined hook)", ["c34d6b2e85a9d21f"]);
   ("x/evidence/keeper.Keeper.MustMarshalEvidence", "panic", 1%nat, "unreachable: guards a store / codec invariant (record written together with its index)", ["291d07486925668f"]);
+  ("x/evidence/keeper.Keeper.MustUnmarshalEvidence", "panic", 1%nat, "unreachable: guards a store / codec invariant (record written together with its index)", ["b4bccbc8a335ed6a"]);
   ("x/evidence/keeper.Keeper.SetEvidence", "must", 1%nat, "decodes bytes (or re-parses an address) that this module stored itself with the matching Marshal -- audited by kind", ["3ab6eeb4f34d2130"]);
   ("x/evidence/types.Equivocation.Hash", "panic", 1%nat, "unreachable: guards a store / codec invariant (record written together with its index)", ["73121bb46c56a335"]);
   ("x/evidence/types.FromABCIEvidence", "panic", 1%nat, "unreachable: guards a store / codec invariant (record written together with its index)", ["0df4eb387dff7d3c"]);
@@ -359,6 +360,7 @@ Definition audit_table : list (string * string * nat * string * list string) := 
   ("x/gov/keeper.Keeper.WhitelistRolePermission", "must", 1%nat, "decodes bytes (or re-parses an address) that this module stored itself with the matching Marshal -- audited by kind", ["b1c2c1d88da7ff38"]);
   ("x/gov/keeper.Keeper.getCouncilorByKey", "must", 1%nat, "decodes bytes (or re-parses an address) that this module stored itself with the matching Marshal -- audited by kind", ["84670240aa8df90a"]);
   ("x/gov/keeper.Keeper.savePermissionsForRole", "must", 1%nat, "decodes bytes (or re-parses an address) that this module stored itself with the matching Marshal -- audited by kind", ["de5be9cd39d417b9"]);
+  ("x/gov/keeper.ValidateIdentityRecordKey", "must", 1%nat, "decodes bytes (or re-parses an address) that this module stored itself with the matching Marshal -- audited by kind", ["2e5e7b054d08fe9b"]);
   ("x/gov/keeper.ValidateRoleSidKey", "must", 1%nat, "decodes bytes (or re-parses an address) that this module stored itself with the matching Marshal -- audited by kind", ["c90a6e8e7356d966"]);
   ("x/gov/keeper.getRolePermissions", "index", 1%nat, "map lookup or index bounded by the enclosing loop / length check", ["68bafff8905381e3"]);
   ("x/gov/types.CalculatePollVotes", "index", 1%nat, "map lookup or index bounded by the enclosing loop / length check", ["f6d35cce8291d236"]);
@@ -369,7 +371,9 @@ Definition audit_table : list (string * string * nat * string * list string) := 
   ("x/gov/types.CalculatedVotes.ProcessResult", "div", 3%nat, "float32 division: no panic (C08 covers the result)", ["5bfc893f14a8e264"]);
   ("x/gov/types.CalculatedVotes.ProcessResult", "index", 5%nat, "map lookup or index bounded by the enclosing loop / length check", ["5bfc893f14a8e264"]);
   ("x/gov/types.ProposalRouter.AllowedAddressesDynamicProposal", "panic", 1%nat, "unreachable: same content type already routed at submission (state-independent, input_only_panics_filtered)", ["d24018d62fbb62f2"]);
+  ("x/gov/types.ProposalRouter.EnactmentPeriodDynamicProposal", "panic", 1%nat, "DeliverTx path (submission); see VotePeriodDynamicProposal", ["0caa5a29dda5e3d6"]);
   ("x/gov/types.ProposalRouter.QuorumDynamicProposal", "panic", 1%nat, "unreachable: same content type already routed at submission (state-independent)", ["f3e82318fb4875cd"]);
+  ("x/gov/types.ProposalRouter.VotePeriodDynamicProposal", "panic", 1%nat, "DeliverTx path (CreateAndSaveProposalWithContent at submission); Jail raises only SlashValidator proposals, whose type is routed", ["031ed520d9275c3e"]);
   ("x/layer2.ApplyJoinDappProposalHandler.AllowedAddresses", "assert", 1%nat, "proposal content assertion inside its own handler: the router dispatches on ProposalType() of the same content, so the dynamic type matches", ["721ec2495c217b4d"]);
   ("x/layer2.ApplyJoinDappProposalHandler.Apply", "assert", 1%nat, "proposal content assertion inside its own handler: the router dispatches on ProposalType() of the same content, so the dynamic type matches", ["3f9e334a4b937a48"]);
   ("x/layer2.ApplyJoinDappProposalHandler.IsAllowedAddress", "assert", 1%nat, "proposal content assertion inside its own handler: the router dispatches on ProposalType() of the same content, so the dynamic type matches", ["0709268d9174b42e"]);
@@ -382,6 +386,7 @@ Definition audit_table : list (string * string * nat * string * list string) := 
   ("x/layer2.ApplyUpsertDappProposalHandler.Quorum", "assert", 1%nat, "proposal content assertion inside its own handler: the router dispatches on ProposalType() of the same content, so the dynamic type matches", ["651433d0487d5597"]);
   ("x/layer2.ApplyUpsertDappProposalHandler.VoteEnactment", "assert", 1%nat, "proposal content assertion inside its own handler: the router dispatches on ProposalType() of the same content, so the dynamic type matches", ["5c4d8dcb58394bd1"]);
   ("x/layer2.ApplyUpsertDappProposalHandler.VotePeriod", "assert", 1%nat, "proposal content assertion inside its own handler: the router dispatches on ProposalType() of the same content, so the dynamic type matches", ["7dcabd634f002cc6"]);
+  ("x/layer2/keeper.AddBridgeBalance", "index", 3%nat, "DeliverTx paths only (bridge transfers): recovered by baseapp", ["be46d78433b812ac"]);
   ("x/layer2/keeper.Keeper.AllowedAddresses", "index", 4%nat, "map lookup or index bounded by the enclosing loop / length check", ["eea763ee20a867a0"]);
   ("x/layer2/keeper.Keeper.EndBlocker", "must", 1%nat, "TeamReserve of an ACTIVE dApp: a dApp only becomes active after FinishDappBootstrap parsed the same string when premint is positive; with premint 0 and postmint positive: suspected, not reproduced (bootstrap leaves the dApp Halted)", ["b8af367205165836"]);
   ("x/layer2/keeper.Keeper.EndBlocker", "newcoin", 1%nat, "amount is a product/fraction of non-negative stored amounts; denom validated at creation", ["b8af367205165836"]);
@@ -394,11 +399,14 @@ Definition audit_table : list (string * string * nat * string * list string) := 
   ("x/layer2/keeper.Keeper.GetAllDapps", "must", 1%nat, "decodes bytes (or re-parses an address) that this module stored itself with the matching Marshal -- audited by kind", ["ebd57dad9b60798a"]);
   ("x/layer2/keeper.Keeper.GetBridgeAccount", "must", 1%nat, "decodes bytes (or re-parses an address) that this module stored itself with the matching Marshal -- audited by kind", ["d6b416cc53b2f78f"]);
   ("x/layer2/keeper.Keeper.GetBridgeRegistrarHelper", "must", 1%nat, "decodes bytes (or re-parses an address) that this module stored itself with the matching Marshal -- audited by kind", ["8dd19739c62a8e34"]);
+  ("x/layer2/keeper.Keeper.GetBridgeToken", "must", 1%nat, "decodes bytes (or re-parses an address) that this module stored itself with the matching Marshal -- audited by kind", ["2f65dcc44edd75c7"]);
+  ("x/layer2/keeper.Keeper.GetCoinsFromBridgeBalance", "newcoin", 1%nat, "amount is a product/fraction of non-negative stored amounts; denom validated at creation", ["6ed112cf10266493"]);
   ("x/layer2/keeper.Keeper.GetDapp", "must", 1%nat, "decodes bytes (or re-parses an address) that this module stored itself with the matching Marshal -- audited by kind", ["4f93505f0905c4cf"]);
   ("x/layer2/keeper.Keeper.GetDappOperator", "must", 1%nat, "decodes bytes (or re-parses an address) that this module stored itself with the matching Marshal -- audited by kind", ["3acbb80637239776"]);
   ("x/layer2/keeper.Keeper.GetDappOperators", "must", 1%nat, "decodes bytes (or re-parses an address) that this module stored itself with the matching Marshal -- audited by kind", ["f5db2720db224461"]);
   ("x/layer2/keeper.Keeper.GetDappSession", "must", 1%nat, "decodes bytes (or re-parses an address) that this module stored itself with the matching Marshal -- audited by kind", ["e7cd502f941f40c9"]);
   ("x/layer2/keeper.Keeper.GetUserDappBonds", "must", 1%nat, "decodes bytes (or re-parses an address) that this module stored itself with the matching Marshal -- audited by kind", ["99cab39c15d359d0"]);
+  ("x/layer2/keeper.Keeper.GetXAM", "must", 1%nat, "decodes bytes (or re-parses an address) that this module stored itself with the matching Marshal -- audited by kind", ["9976f4b00e7b9cfe"]);
   ("x/layer2/keeper.Keeper.GetXAMs", "must", 1%nat, "decodes bytes (or re-parses an address) that this module stored itself with the matching Marshal -- audited by kind", ["2ae02a7b0f220b69"]);
   ("x/layer2/keeper.Keeper.IsAllowedAddress", "index", 2%nat, "map lookup or index bounded by the enclosing loop / length check", ["8c863e8c50394ba0"]);
   ("x/layer2/keeper.Keeper.ResetNewSession", "newcoin", 1%nat, "amount is a product/fraction of non-negative stored amounts; denom validated at creation", ["9a120065aae3fc2a"]);
@@ -412,6 +420,8 @@ Definition audit_table : list (string * string * nat * string * list string) := 
   ("x/layer2/keeper.Keeper.SetDappOperator", "must", 1%nat, "decodes bytes (or re-parses an address) that this module stored itself with the matching Marshal -- audited by kind", ["56df2899afd7d67d"]);
   ("x/layer2/keeper.Keeper.SetDappSession", "must", 1%nat, "decodes bytes (or re-parses an address) that this module stored itself with the matching Marshal -- audited by kind", ["6c87cf7a7a8f642c"]);
   ("x/layer2/keeper.Keeper.SetXAM", "must", 1%nat, "decodes bytes (or re-parses an address) that this module stored itself with the matching Marshal -- audited by kind", ["90c2cb7a2d72c13f"]);
+  ("x/layer2/keeper.SubBridgeBalance", "index", 4%nat, "DeliverTx paths only (bridge transfers): recovered by baseapp", ["2aa9984b2ddaa724"]);
+  ("x/layer2/keeper.SubBridgeBalance", "sub", 1%nat, "DeliverTx paths only (bridge transfers): recovered by baseapp", ["2aa9984b2ddaa724"]);
   ("x/layer2/keeper.msgServer.MintBurnTx", "must", 1%nat, "decodes bytes (or re-parses an address) that this module stored itself with the matching Marshal -- audited by kind", ["cabb5ebda97b8924"]);
   ("x/layer2/keeper.msgServer.MintBurnTx", "newcoin", 1%nat, "amount is a product/fraction of non-negative stored amounts; denom validated at creation", ["cabb5ebda97b8924"]);
   ("x/layer2/keeper.msgServer.MintCreateFtTx", "newcoin", 1%nat, "amount is a product/fraction of non-negative stored amounts; denom validated at creation", ["9aadda9fdbc648ef"]);
@@ -424,19 +434,26 @@ Definition audit_table : list (string * string * nat * string * list string) := 
   ("x/multistaking/keeper.Keeper.ClaimRewards", "panic", 1%nat, "unreachable: guards a store / codec invariant (record written together with its index)", ["0cb64d180c28bba9"]);
   ("x/multistaking/keeper.Keeper.ClaimRewardsFromModule", "panic", 1%nat, "unreachable: guards a store / codec invariant (record written together with its index)", ["4cde2db996dac55d"]);
   ("x/multistaking/keeper.Keeper.GetAllStakingPools", "must", 1%nat, "decodes bytes (or re-parses an address) that this module stored itself with the matching Marshal -- audited by kind", ["5f060253f8e1c82a"]);
+  ("x/multistaking/keeper.Keeper.GetCompoundInfoByAddress", "must", 1%nat, "decodes bytes (or re-parses an address) that this module stored itself with the matching Marshal -- audited by kind", ["78c281e2ea9a0b9c"]);
   ("x/multistaking/keeper.Keeper.GetDelegatorRewards", "panic", 1%nat, "unreachable: guards a store / codec invariant (record written together with its index)", ["759deeebf729e036"]);
   ("x/multistaking/keeper.Keeper.GetStakingPoolByValidator", "must", 1%nat, "decodes bytes (or re-parses an address) that this module stored itself with the matching Marshal -- audited by kind", ["1a43f0719ed68279"]);
   ("x/multistaking/keeper.Keeper.IncreasePoolRewards", "newcoin", 2%nat, "non-negative products", ["a11b046450bd2b1c"]);
   ("x/multistaking/keeper.Keeper.IncreasePoolRewards", "quo", 1%nat, "guarded: shareToken.Amount.IsZero() => continue", ["a11b046450bd2b1c"]);
+  ("x/multistaking/keeper.Keeper.SetCompoundInfo", "must", 1%nat, "decodes bytes (or re-parses an address) that this module stored itself with the matching Marshal -- audited by kind", ["c6fceb728a4aee3b"]);
   ("x/multistaking/keeper.Keeper.SetStakingPool", "must", 1%nat, "decodes bytes (or re-parses an address) that this module stored itself with the matching Marshal -- audited by kind", ["0980cc29fad49e87"]);
   ("x/multistaking/keeper.Keeper.SlashStakingPool", "newcoin", 2%nat, "non-negative fractions", ["3659416c5742f268"]);
   ("x/multistaking/keeper.Keeper.SlashStakingPool", "sub", 3%nat, "fractions of the pool totals (slash in [0,1])", ["3659416c5742f268"]);
   ("x/multistaking/keeper.Keeper.SlashStakingPool", "panic", 3%nat, "reached from SlashValidator.Apply in the gov end-blocker (no dry run); since fix 27b0386 the keeper is shared and an empty burn is skipped: burn / transfer of fractions (slash in [0,1]) of module-held stake; slash-proposal histories (slash, unjail, activate, undelegate, rewards) complete", ["3659416c5742f268"]);
   ("x/multistaking/keeper.Keeper.autocompoundRewards", "sub", 1%nat, "autoCompoundRewards is a sub-multiset of rewards by construction; runs on a cache context whose errors are discarded", ["194b1c772b6f588e"]);
+  ("x/multistaking/types.GetPoolCoins", "newcoin", 1%nat, "DeliverTx paths only: recovered by baseapp", ["d4eebeaeab5c03b0"]);
+  ("x/multistaking/types.GetPoolCoins", "sub", 1%nat, "DeliverTx paths only (Undelegate / redeem): recovered by baseapp", ["d4eebeaeab5c03b0"]);
   ("x/recovery/keeper.Keeper.ClaimRewards", "panic", 1%nat, "unreachable: guards a store / codec invariant (record written together with its index)", ["481ac89eced8ac7f"]);
   ("x/recovery/keeper.Keeper.GetRRTokenHolderRewards", "panic", 1%nat, "unreachable: guards a store / codec invariant (record written together with its index)", ["8279fa45ce06c49d"]);
   ("x/recovery/keeper.Keeper.GetRecoveryToken", "must", 1%nat, "decodes bytes (or re-parses an address) that this module stored itself with the matching Marshal -- audited by kind", ["68cd1241d1ebbd98"]);
-  ("x/recovery/keeper.Keeper.IncreaseRecoveryTokenUnderlying", "sub", 1%nat, "sdk.Int / time subtraction or Coins.Sub guarded by an error-returning balance check before it", ["5f101af1a595a034"]);
+  ("x/recovery/keeper.Keeper.IncreaseRecoveryTokenUnderlying", "sub", 1%nat, "guarded by TRUNCATION in calcPortion: every allocation is floor(amount * balance / supply) per denom and the registered holders' balances sum to at most the supply, so the allocations sum to at most amount; exercised in real BeginBlocks by the recovery-rewards histories (1..3 holders owning all / part of the supply, odd fees in several denoms)", ["5f101af1a595a034"]);
+  ("x/recovery/keeper.Keeper.SetRecoveryToken", "must", 1%nat, "decodes bytes (or re-parses an address) that this module stored itself with the matching Marshal -- audited by kind", ["963cbc98673abaf4"]);
+  ("x/recovery/keeper.calcPortion", "newcoin", 1%nat, "non-negative: product of non-negative amounts divided by a positive supply, truncated", ["54997deb1d3f4cda"]);
+  ("x/recovery/keeper.calcPortion", "quo", 1%nat, "divides by the RR supply: calcPortion is only called for registered holders, UnregisterNotEnoughAmountHolder has just removed every holder below 1000000 units, so a remaining holder implies supply >= 1000000", ["54997deb1d3f4cda"]);
   ("x/slashing.ApplyResetWholeValidatorRankProposalHandler.Apply", "assert", 1%nat, "proposal content assertion inside its own handler: the router dispatches on ProposalType() of the same content, so the dynamic type matches", ["7a0cbc4ff2440567"]);
   ("x/slashing.ApplySlashValidatorProposalHandler.Apply", "assert", 1%nat, "proposal content assertion inside its own handler: the router dispatches on ProposalType() of the same content, so the dynamic type matches", ["b0a4d5bbaced26e2"]);
   ("x/slashing/keeper.Keeper.GetValidatorSigningInfo", "must", 1%nat, "decodes bytes (or re-parses an address) that this module stored itself with the matching Marshal -- audited by kind", ["0d9b0edc8d11c27b"]);
@@ -486,6 +503,7 @@ Definition audit_table : list (string * string * nat * string * list string) := 
   ("x/staking/keeper.Keeper.PauseProposalNotApprovedValidators", "index", 3%nat, "map lookup or index bounded by the enclosing loop / length check", ["66185722e22265cb"]);
   ("x/staking/keeper.Keeper.getValidatorByKey", "must", 1%nat, "decodes bytes (or re-parses an address) that this module stored itself with the matching Marshal -- audited by kind", ["86eb4e7950b0a5f0"]);
   ("x/staking/keeper.Keeper.setJailValidatorInfo", "must", 1%nat, "decodes bytes (or re-parses an address) that this module stored itself with the matching Marshal -- audited by kind", ["6b4d1bd110129330"]);
+  ("x/staking/types.Validator.GetConsPubKey", "panic", 1%nat, "unpacks the validator's own stored public key Any (cached value set by UnpackInterfaces when the record is read)", ["7496996e2d7d0d9b"]);
   ("x/tokens.ApplyUpsertTokenInfosProposalHandler.Apply", "assert", 1%nat, "proposal content assertion inside its own handler: the router dispatches on ProposalType() of the same content, so the dynamic type matches", ["b06dca7bb4f15363"]);
   ("x/tokens.ApplyWhiteBlackChangeProposalHandler.Apply", "assert", 1%nat, "proposal content assertion inside its own handler: the router dispatches on ProposalType() of the same content, so the dynamic type matches", ["176eb6b88132c613"]);
   ("x/tokens/keeper.Keeper.BurnCoins", "sub", 1%nat, "sdk.Int / time subtraction or Coins.Sub guarded by an error-returning balance check before it", ["2ed9f7be1df98e38"]);
